@@ -1,16 +1,15 @@
 (* C04 — results do not depend on the storage order of dimensions.  Statements only.
    [same_arr x x'] : same dimensions as a set and equal entries under equal labels, i.e. x' is x
    stored in another order.  Proved here for the reductions (sum_to / sum_over, hence + - min max,
-   which reduce both operands first), for products / quotients and for slice reads with dict keys; for
-   assignments from a FlodymArray the label-level theorem C05_dict_assignment_by_label says the same for the
-   source (its marginal by label does not depend on its storage order: C04_sum_to_independent_of_storage_order)
-   and cast_to is by label by C07_cast_replicates_by_label; DataFrame round trips, stacking / splitting and
+   which reduce both operands first), for products / quotients, for slice reads with dict keys and for slice
+   assignment from a FlodymArray (storage order of the source and of the pre-declared target);
+   cast_to is by label by C07_cast_replicates_by_label; DataFrame round trips, stacking / splitting and
    lifetime parameters are carried by the exhaustive permutation correspondence (every permutation of every
    participating array up to rank 3 / 4) — see DESIGN.md. *)
 From Coq Require Import List Arith Bool Ring_theory Permutation.
 Import ListNotations.
 From Flodym Require Import Base.ND Base.Env Np.Einsum Model.Dims Model.Array Model.SubArray Proofs.ArrayLemmas Proofs.C04Proofs
-  Proofs.HandlerProofs Proofs.GetitemSpec Proofs.GetitemCongr.
+  Proofs.HandlerProofs Proofs.GetitemSpec Proofs.GetitemCongr Proofs.SetitemSpec Proofs.SetitemCongr.
 
 Theorem C04_sum_to_independent_of_storage_order :
   forall (R : Type) (rO rI : R) (radd rmul rsub : R -> R -> R) (ropp : R -> R),
@@ -59,3 +58,57 @@ Theorem C04_slice_read_independent_of_storage_order :
   den R rO r e = den R rO r' e /\ Permutation (adims r) (adims r').
 Proof. exact getitem_congr. Qed.
 Print Assumptions C04_slice_read_independent_of_storage_order.
+
+(* slice assignment target[{...}] = source: the storage order of the SOURCE is irrelevant ... *)
+Theorem C04_assignment_independent_of_the_source_storage_order :
+  forall (R : Type) (rO rI : R) (radd rmul rsub : R -> R -> R) (ropp : R -> R),
+  ring_theory rO rI radd rmul rsub ropp eq ->
+  forall (a y y' a1 a2 : farr R) kvs,
+  wf R a -> wf R y -> wf R y' -> same_arr R rO y y' -> wf_dict (adims a) no_asg kvs ->
+  let F := asg_of no_asg kvs in
+  let dout := flat_map (out_for F) (adims a) in
+  no_lists F (adims a) -> distinct_items F (adims a) ->
+  (forall d, In d dout -> lookup (lsizes R y) (dletter d) = dlen d) ->
+  (forall d, In d dout -> lookup (lsizes R y') (dletter d) = dlen d) ->
+  setitem R rO rI radd rmul a (KDict kvs) (RArr R y) = Ok a1 ->
+  setitem R rO rI radd rmul a (KDict kvs) (RArr R y') = Ok a2 ->
+  adims a1 = adims a2
+  /\ (forall e, (forall d, In d dout -> lookup e (dletter d) < dlen d) ->
+        den R rO a1 (src_env F (adims a) e) = den R rO a2 (src_env F (adims a) e))
+  /\ (forall e, (forall d, In d (adims a) -> lookup e (dletter d) < dlen d) ->
+        ~ in_region F (adims a) e -> den R rO a1 e = den R rO a2 e).
+Proof. exact setitem_source_congr. Qed.
+Print Assumptions C04_assignment_independent_of_the_source_storage_order.
+
+(* ... and so is the storage order of the pre-declared TARGET: the two results are the same labelled array *)
+Theorem C04_assignment_independent_of_the_target_storage_order :
+  forall (R : Type) (rO rI : R) (radd rmul rsub : R -> R -> R) (ropp : R -> R),
+  ring_theory rO rI radd rmul rsub ropp eq ->
+  forall (a a' y a1 a2 : farr R) kvs,
+  wf R a -> wf R a' -> same_arr R rO a a' -> wf R y -> wf_dict (adims a) no_asg kvs ->
+  let F := asg_of no_asg kvs in
+  let dout := flat_map (out_for F) (adims a) in
+  no_lists F (adims a) -> distinct_items F (adims a) ->
+  (forall d, In d dout -> lookup (lsizes R y) (dletter d) = dlen d) ->
+  setitem R rO rI radd rmul a (KDict kvs) (RArr R y) = Ok a1 ->
+  setitem R rO rI radd rmul a' (KDict kvs) (RArr R y) = Ok a2 ->
+  Permutation (adims a1) (adims a2)
+  /\ (forall e, (forall d, In d dout -> lookup e (dletter d) < dlen d) ->
+        den R rO a1 (src_env F (adims a) e) = den R rO a2 (src_env F (adims a') e))
+  /\ (forall e, (forall d, In d (adims a) -> lookup e (dletter d) < dlen d) ->
+        ~ in_region F (adims a) e -> den R rO a1 e = den R rO a2 e).
+Proof. exact setitem_target_congr. Qed.
+Print Assumptions C04_assignment_independent_of_the_target_storage_order.
+
+(* an instance: the source of ex_C05_dict_assignment stored as (m, r) and as (r, m), and the target stored as (t, r) and as (r, t) *)
+Example ex_C04_assignment_orders :
+  let dt := mk_dim 116 0 [10; 11] in let dr := mk_dim 114 1 [20; 21; 22] in let dm := mk_dim 109 2 [30; 31] in
+  let a := mk_farr [dt; dr] [1; 2; 3; 4; 5; 6] in
+  let a' := mk_farr [dr; dt] [1; 4; 2; 5; 3; 6] in
+  let y := mk_farr [dm; dr] [100; 200; 300; 1000; 2000; 3000] in
+  let y' := mk_farr [dr; dm] [100; 1000; 200; 2000; 300; 3000] in
+  let kvs := [(KLetter 116, ISingle 11)] in
+  setitem nat 0 1 Nat.add Nat.mul a (KDict kvs) (RArr nat y) = Ok (mk_farr [dt; dr] [1; 2; 3; 1100; 2200; 3300])
+  /\ setitem nat 0 1 Nat.add Nat.mul a (KDict kvs) (RArr nat y') = Ok (mk_farr [dt; dr] [1; 2; 3; 1100; 2200; 3300])
+  /\ setitem nat 0 1 Nat.add Nat.mul a' (KDict kvs) (RArr nat y) = Ok (mk_farr [dr; dt] [1; 1100; 2; 2200; 3; 3300]).
+Proof. cbv zeta. repeat split; vm_compute; reflexivity. Qed.
